@@ -1161,6 +1161,7 @@ fn gen_spec(rng: &mut Rng, big: bool) -> ShardSpec {
         dup_chunks: *rng.pick(&[0u32, 0, 2, 8]),
         overlap_first: None,
         zero_byte_only: !big && rng.chance(1, 12),
+        offsets_style: *rng.pick(&[0u32, 0, 0, 0, 1, 2]),
     }
 }
 
